@@ -932,3 +932,64 @@ def check_cyk(ctx, rep, f_matrix, f_accepts, rule=RULE + '.M23'):
         rep.undecided(rule, f_matrix, 'def ' + f_matrix.name, 'outside the evaluator: {}'.format(e))
         return
     rep.holds(rule, f_matrix, 'def ' + f_matrix.name, 'on {} comparisons (five model grammars in Chomsky normal form, all words up to length 4 resp. 3) every cell holds exactly the variables that derive the subword and the membership test agrees with derivability from the start variable'.format(cases))
+
+
+# ---- the bounded enumerators of DFAs, NFAs and regular expressions on models ------------------------------------------------------
+
+def check_enumerators(ctx, rep, f_dfa, f_nfa, f_rx, rule=RULE + '.M24'):
+    """dfa_words_up_to_n, nfa_words_up_to_n and regexp_words_up_to_n for n = 0..4 on the model DFAs, NFAs and expressions: the
+    result is exactly the set of accepted / denoted words of length at most n (reference: the analyser's own run of the model).
+    n runs through the length of the shortest accepted word of every model, and through 0."""
+    cases = 0
+    cur = f_dfa
+    try:
+        for name, spec in list(_C_DFAS.items()) + [(k, v[:5]) for k, v in _DFAS.items()]:
+            for n in range(5):
+                D = _mk(*spec)
+                want = _dfa_lang(D, n)
+                ok, got = _run(rule, rep, f_dfa, lambda: _interp(ctx, 'asc', classes={'DFA': _dfa_class}, max_steps=400000).call(f_dfa, [D, n]), 'on the DFA "{}" with n = {}'.format(name, n))
+                if not ok:
+                    return
+                if not isinstance(got, (set, frozenset)):
+                    raise Unsupported('the result is not a set')
+                cases += 1
+                if set(got) != want:
+                    extra, missing = sorted(set(got) - want), sorted(want - set(got))
+                    rep.violates(rule, f_dfa, 'def ' + f_dfa.name, 'on the DFA "{}" with n = {} the result {}'.format(name, n, 'contains {!r}, which is not an accepted word of length <= n'.format(extra[0]) if extra else 'misses the accepted word {!r}'.format(missing[0])))
+                    return
+        cur = f_nfa
+        for name, spec in _ACC_NFAS.items():
+            for n in range(5):
+                for order in ('asc', 'desc'):
+                    N = _nfa(*spec)
+                    want = _nfa_lang(N, set(N._f['Sigma']), n)
+                    ok, got = _run(rule, rep, f_nfa, lambda: _interp(ctx, order, classes={'NFA': _nfa_class}, max_steps=400000).call(f_nfa, [N, n]), 'on the NFA "{}" with n = {}'.format(name, n))
+                    if not ok:
+                        return
+                    if not isinstance(got, (set, frozenset)):
+                        raise Unsupported('the result is not a set')
+                    cases += 1
+                    if set(got) != want:
+                        extra, missing = sorted(set(got) - want), sorted(want - set(got))
+                        rep.violates(rule, f_nfa, 'def ' + f_nfa.name, 'on the NFA "{}" with n = {} the result {}'.format(name, n, 'contains {!r}, which is not an accepted word of length <= n'.format(extra[0]) if extra else 'misses the accepted word {!r}'.format(missing[0])))
+                        return
+        cur = f_rx
+        for t in _model_regexps():
+            for n in range(4):
+                it = _interp(ctx, 'asc', max_steps=400000)
+                it.superclasses = {k: ('Regexp',) for k in ('Zero', 'One', 'Symbol', 'Iteration', 'Sum', 'Concat')}
+                want = _rx_lang(t, n)
+                ok, got = _run(rule, rep, f_rx, lambda: it.call(f_rx, [_rx(t), n]), 'on the expression {} with n = {}'.format(_rx_str(t), n))
+                if not ok:
+                    return
+                if not isinstance(got, (set, frozenset)):
+                    raise Unsupported('the result is not a set')
+                cases += 1
+                if set(got) != want:
+                    extra, missing = sorted(set(got) - want), sorted(want - set(got))
+                    rep.violates(rule, f_rx, 'def ' + f_rx.name, 'on the expression {} with n = {} the result {}'.format(_rx_str(t), n, 'contains {!r}, which is not a denoted word of length <= n'.format(extra[0]) if extra else 'misses the denoted word {!r}'.format(missing[0])))
+                    return
+    except (Unsupported, RecursionError) as e:
+        rep.undecided(rule, cur, 'def ' + cur.name, 'outside the evaluator: {}'.format(e))
+        return
+    rep.holds(rule, f_dfa, 'def ' + f_dfa.name + ' / ' + f_nfa.name + ' / ' + f_rx.name, 'on {} runs (the model DFAs, NFAs and expressions, n = 0..4 resp. 0..3) each enumerator returns exactly the accepted / denoted words of length at most n'.format(cases))
